@@ -49,21 +49,49 @@ STUB_PATCHES = {
 }
 
 
-def _run(cmd, cwd, env, timeout, logfile, mem_gb=None):
-    """run one command (own process group, killed as a group on timeout); mem_gb: address-space cap per process"""
-    import signal
-    pre = f"ulimit -v {int(mem_gb * 1024 * 1024)}; " if mem_gb else ""
-    with open(logfile, "w") as lf:
-        p = subprocess.Popen(["bash", "-c", pre + cmd], cwd=cwd, env=env, stdout=lf, stderr=subprocess.STDOUT, start_new_session=True)
+def _descendants(root):
+    kids = {}
+    for d in os.listdir("/proc"):
+        if not d.isdigit():
+            continue
         try:
-            return p.wait(timeout=timeout)
-        except subprocess.TimeoutExpired:
+            with open(f"/proc/{d}/stat") as f:
+                st = f.read()
+            rp = st.rindex(")")
+            fields = st[rp + 2:].split()
+            kids.setdefault(int(fields[1]), []).append((int(d), st[st.index("(") + 1:rp], int(fields[21]) * 4096))
+        except (OSError, ValueError, IndexError):
+            continue
+    out, stack = [], [root]
+    while stack:
+        p = stack.pop()
+        for c in kids.get(p, []):
+            out.append(c)
+            stack.append(c[0])
+    return out
+
+
+def _run(cmd, cwd, env, timeout, logfile, mem_gb=None):
+    """run one command in its own process group (killed as a group on timeout). mem_gb: RSS watchdog -- the whole
+    group is killed when any descendant (cbmc, kani-driver parsing a trace, ...) grows beyond it. (An address-space
+    ulimit does not work here: kani-driver reserves far more virtual memory than it touches.)"""
+    import signal
+    with open(logfile, "w") as lf:
+        p = subprocess.Popen(["bash", "-c", cmd], cwd=cwd, env=env, stdout=lf, stderr=subprocess.STDOUT, start_new_session=True)
+        t0 = time.time()
+        while True:
             try:
-                os.killpg(p.pid, signal.SIGKILL)
-            except ProcessLookupError:
-                pass
-            p.wait()
-            return -9
+                return p.wait(timeout=5)
+            except subprocess.TimeoutExpired:
+                over = mem_gb and any(rss > mem_gb * (1 << 30) for _, _, rss in _descendants(p.pid))
+                if over or time.time() - t0 > timeout:
+                    try:
+                        os.killpg(p.pid, signal.SIGKILL)
+                    except ProcessLookupError:
+                        pass
+                    p.wait()
+                    lf.write("\n[replay] killed: " + ("memory cap" if over else "timeout") + "\n")
+                    return -9
 
 
 def _keep(prop, path):
@@ -136,7 +164,7 @@ def _kani_playback(prop, h, fcs, src, target, logs, env, hfile):
         e = dict(env)
         e.update(extra_env)
         # Kani's playback parses CBMC's full JSON trace inside the driver: cap it (seen: 39 GB for a list-heavy harness)
-        _run(cmd, src, e, int(os.environ.get('VERIF_PLAYBACK_TIMEOUT', '1500')), log1, mem_gb=float(os.environ.get('VERIF_PLAYBACK_MEM_GB', '12')))
+        _run(cmd, src, e, int(os.environ.get('VERIF_PLAYBACK_TIMEOUT', '1500')), log1, mem_gb=float(os.environ.get('VERIF_PLAYBACK_MEM_GB', '16')))
         txt = open(log1, errors="replace").read()
         found = []
         for blk in re.findall(r"```\s*\n(.*?)\n```", txt, re.S):
